@@ -75,7 +75,7 @@ def main(ctx):
         raise RuntimeError('shared-memory driver failed (rc=%s): %s' % (rc, log[-1500:]))
     obs = [c['obs'] for c in data['counters']]
     _, verdicts = monitor.check('CounterMonitor', obs, invariants=['FinalIsCount'],
-                                properties=['NoLostUpdate'], constants={'MaxVal': '100000'})
+                                properties=['NoLostUpdate', 'ExclusiveHold'], constants={'MaxVal': '100000'})
     ctx.traces += len(obs)
     ctx.replay_steps += sum(len(o) for o in obs)
     for v in verdicts:
